@@ -789,6 +789,64 @@ def gen_state() -> str:
     return "\n".join(txt)
 
 
+# ---------------------------------------------------------------- statusline facts (C20)
+
+def gen_statusline() -> str:
+    m = parse_file("dippy_statusline.py")
+    facts = {"suffix": "", "mcp": "", "tmp_has_pid": False, "opens_tmp": False, "renames_tmp_to_path": False, "writes_final_directly": True, "ttl": 0, "default": "", "slash_to": ""}
+    f = find_func(m, "get_cache_path")
+    if f is not None:
+        for n in ast.walk(f):
+            if isinstance(n, ast.JoinedStr):
+                tail = [v.value for v in n.values if isinstance(v, ast.Constant)]
+                if tail:
+                    facts["suffix"] = tail[-1]
+            if isinstance(n, ast.IfExp) and isinstance(n.orelse, ast.Constant):
+                facts["default"] = n.orelse.value
+                if isinstance(n.body, ast.Call) and getattr(n.body.func, "attr", "") == "replace" and len(n.body.args) == 2 and all(isinstance(a, ast.Constant) for a in n.body.args):
+                    facts["slash_to"] = n.body.args[0].value + "->" + n.body.args[1].value
+    v = module_assign(m, "MCP_CACHE_PATH")
+    if isinstance(v, ast.Call) and v.args and isinstance(v.args[-1], ast.Constant):
+        facts["mcp"] = v.args[-1].value
+    v = module_assign(m, "CACHE_TTL")
+    if isinstance(v, ast.Constant):
+        facts["ttl"] = int(v.value)
+    f = find_func(m, "set_cache")
+    if f is not None:
+        src = ast.unparse(f)
+        for n in ast.walk(f):
+            if isinstance(n, ast.Assign) and ast.unparse(n.targets[0]) == "tmp":
+                facts["tmp_has_pid"] = "os.getpid()" in ast.unparse(n.value) and "path" in ast.unparse(n.value)
+            if isinstance(n, ast.Call) and ast.unparse(n.func) == "open" and n.args:
+                if ast.unparse(n.args[0]) == "tmp":
+                    facts["opens_tmp"] = True
+            if isinstance(n, ast.Call) and ast.unparse(n.func) in ("os.rename", "os.replace") and len(n.args) == 2:
+                facts["renames_tmp_to_path"] = ast.unparse(n.args[0]) == "tmp" and ast.unparse(n.args[1]) == "path"
+        facts["writes_final_directly"] = "open(path" in src
+    if m is None or not facts["suffix"]:
+        MISSING.append("statusline facts")
+    b = lambda x: "true" if x else "false"  # noqa: E731
+    txt = [
+        "-- GENERATED by harness/gen_tables.py from src/dippy/dippy_statusline.py (C20). Do not edit.",
+        "namespace Dippy.Generated.SL",
+        "",
+        "def cacheSuffix : String := " + lean_str(facts["suffix"]),
+        "def defaultId : String := " + lean_str(facts["default"]),
+        "def slashReplace : String := " + lean_str(facts["slash_to"]),
+        "def mcpFile : String := " + lean_str(facts["mcp"]),
+        "def cacheTtl : Nat := %d" % facts["ttl"],
+        "/-- set_cache: tmp = f\"{path}.tmp.{os.getpid()}\"; open(tmp, \"w\"); os.rename(tmp, path); the entry is never opened for writing -/",
+        "def tmpHasPid : Bool := " + b(facts["tmp_has_pid"]),
+        "def opensTmp : Bool := " + b(facts["opens_tmp"]),
+        "def renamesTmpToPath : Bool := " + b(facts["renames_tmp_to_path"]),
+        "def writesFinalDirectly : Bool := " + b(facts["writes_final_directly"]),
+        "",
+        "end Dippy.Generated.SL",
+        "",
+    ]
+    return "\n".join(txt)
+
+
 def main() -> int:
     changed = []
     files = {
@@ -798,6 +856,7 @@ def main() -> int:
         "Hook.lean": gen_hook(),
         "Handlers.lean": gen_handlers(),
         "State.lean": gen_state(),
+        "Statusline.lean": gen_statusline(),
     }
     miss = (
         "-- GENERATED. Tables the translator could not find where it expected them.\n"
